@@ -32,6 +32,10 @@ def check_case(ctx, case):
     kw = dict(case['kw'])
     coords = np.array(case['coords'], float)
     values = np.array(case['values'], float)
+    # the value vector may come in any numeric dtype (e.g. 8-bit image data)
+    dt = case.get('dtype', 'float64')
+    if dt != 'float64':
+        values = np.round(values * 10).astype(dt) if dt.startswith('uint') else np.round(values).astype(dt)
     M = kw['maxlag']
     assert isinstance(M, float) and M >= 1
     kw['fit_method'] = None
@@ -53,6 +57,7 @@ def check_case(ctx, case):
     ctx.count('bin:' + kw['bin_func'])
     ctx.count('maxlag:' + case['maxlag_form'])
     ctx.count('coords:' + case['kind'])
+    ctx.count('dtype:' + dt)
     nonempty = int(np.sum(cd > 0))
     ctx.case(signature=('sparse-vs-dense', tuple(cd.tolist()), kw['bin_func'], kw['estimator']) if nonempty >= 2 else None,
              stream='storage-routes',
@@ -75,10 +80,11 @@ def check_case(ctx, case):
         except ValueError:
             pass
         between = bool(dstored.max() < M * (1 - 1e-12) and dall.max() > M)
-        ctx.violation('sparse-vs-dense', 'maxlag=%r: dense edges %r counts %r, sparse edges %r counts %r' % (
-            M, ed.tolist(), cd.tolist(), es.tolist(), cs.tolist()), case,
-            signature=dict(kind='sparse-last-edge', maxlag_between_distances=between,
-                           equals_defect_model=bool(eq_defect)))
+        same_edges_counts = all_close(es, ed, rel=1e-12) and cs.tolist() == cd.tolist()
+        ctx.violation('sparse-vs-dense', 'maxlag=%r, values dtype %s: dense edges %r counts %r exp %r, sparse edges %r counts %r exp %r' % (
+            M, dt, ed.tolist(), cd.tolist(), xd.tolist()[:4], es.tolist(), cs.tolist(), xs.tolist()[:4]), case,
+            signature=dict(kind='sparse-last-edge' if not same_edges_counts else 'sparse-semivariance',
+                           maxlag_between_distances=between, equals_defect_model=bool(eq_defect), dtype=dt))
 
     # model tie: counts on stored vs all records for the implementation's sparse edges
     if kw['estimator'] == 'matheron' and len(dall) <= 800:
@@ -103,6 +109,7 @@ def gen(ctx):
                               kinds=['uniform', 'clustered', 'lattice', 'lattice', 'dup'])
         M = case['kw']['maxlag']
         if isinstance(M, float) and M >= 1 and case['storage'] == 'raw':
+            case['dtype'] = str(rng.choice(['float64', 'float64', 'float64', 'uint8', 'int32', 'float32']))
             return case
 
 
